@@ -396,3 +396,28 @@ Proof.
   - rewrite Hlen. lia.
   - exact H3.
 Qed.
+
+(* ---- C06: a rollback leaves no trace in the pool. After DeleteMomentum back to j confirmed blocks the account's
+   manager holds exactly those j blocks and nothing unconfirmed — whatever had been pooled or confirmed on the abandoned
+   branch — so two nodes whose j oldest blocks agree are in the same pool state, and stay so under any later operations *)
+Lemma delete_no_trace a1 a2 j :
+  (j <= sh a1)%nat -> (j <= sh a2)%nat ->
+  skipn (length (rchain a1) - j) (rchain a1) = skipn (length (rchain a2) - j) (rchain a2) ->
+  fst (step a1 (ODelete j)) = fst (step a2 (ODelete j)).
+Proof.
+  intros H1 H2 E. cbn [step].
+  assert ((sh a1 <? j)%nat = false) as -> by (apply Nat.ltb_ge; exact H1).
+  assert ((sh a2 <? j)%nat = false) as -> by (apply Nat.ltb_ge; exact H2).
+  cbn [fst]. rewrite E. reflexivity.
+Qed.
+Lemma delete_pool_empty a j : wf a -> (j <= sh a)%nat ->
+  let a' := fst (step a (ODelete j)) in length (rchain a') = sh a' /\ sh a' = j.
+Proof.
+  intros [L S] H. cbn [step]. assert ((sh a <? j)%nat = false) as -> by (apply Nat.ltb_ge; exact H).
+  cbn [fst rchain sh]. rewrite skipn_length. split; [lia|reflexivity].
+Qed.
+Lemma delete_then_same a1 a2 j ops :
+  (j <= sh a1)%nat -> (j <= sh a2)%nat ->
+  skipn (length (rchain a1) - j) (rchain a1) = skipn (length (rchain a2) - j) (rchain a2) ->
+  run a1 (ODelete j :: ops) = run a2 (ODelete j :: ops).
+Proof. intros H1 H2 E. cbn [run]. rewrite (delete_no_trace a1 a2 j H1 H2 E). reflexivity. Qed.
